@@ -21,12 +21,17 @@ Definition o_enc (v : val) : res (option val) := if json_ok v then Ok (Some (nor
 Definition o_dec (t : option val) : res val := match t with Some v => Ok v | None => Raise EValue end.
 Definition o_empty (t : option val) : bool := match t with None => true | Some _ => false end.
 
+Inductive payload_kind := PKRequest | PKNotify | PKResponse | PKError.
+
 Inductive c14_api :=
 | ADump                         (* jsonrpc.dump(...) -> the dictionary *)
 | ADumpsLoads                   (* jsonrpc.loads(jsonrpc.dumps(...), config) -> the parsed structure *)
 | AFaultDump (own_id : val)     (* Fault(code, msg, own_id, config, data).dump(rpcid, version) *)
 | AFaultResponse (own_id : val) (* json.loads(Fault(...).response(rpcid, version)) *)
-| ALoadsEmpty.                  (* jsonrpc.loads("") *)
+| ALoadsEmpty                   (* jsonrpc.loads("") *)
+| ALoadsText (v : val)          (* jsonrpc.loads(json.dumps(v), config) *)
+| AFaultError (own_id : val)    (* Fault(code, msg, own_id, config, data).error() *)
+| APayload (k : payload_kind).  (* Payload(rpcid, version, config).request(method, params) / notify / response(params) / error(code, msg, data) *)
 
 Inductive c14_call :=
   C14Call (api : c14_api) (dv : val) (cfg : pcfg) (p : dparams) (m rpcid version resp notify : val).
@@ -54,6 +59,25 @@ Definition c14_run_one (c : c14_call) (n : nat) : res val * nat :=
       | PVal _ => (Raise EUnmodelled, n)
       end
   | ALoadsEmpty => (loads o_empty o_dec jl_plain cfg None, n)
+  | ALoadsText v => (do t <- o_enc v; loads o_empty o_dec jl_plain cfg t, n)
+  | AFaultError own =>
+      match p with
+      | PFault c ms d => (Ok (fault_error (mkFault c ms own cfg d)), n)
+      | PVal _ => (Raise EUnmodelled, n)
+      end
+  | APayload k =>
+      (* Payload.__init__ is given the configuration here: its fallback version is the configuration's *)
+      match payload_init (pc_version cfg) rpcid version with
+      | Raise e => (Raise e, n)
+      | Ok pl =>
+          match k, p with
+          | PKRequest, PVal pv => keep n (do (d, _, n') <- payload_request fr pl m pv n; Ok (d, n'))
+          | PKNotify, PVal pv => keep n (do (d, _, n') <- payload_notify fr pl m pv n; Ok (d, n'))
+          | PKResponse, PVal pv => (payload_response pl pv, n)
+          | PKError, PFault c ms d => (payload_error pl c ms d, n)
+          | _, _ => (Raise EUnmodelled, n)
+          end
+      end
   end.
 
 Fixpoint c14_run (cs : list c14_call) (n : nat) : list (res val) * nat :=
